@@ -348,7 +348,7 @@ SPECS["C10"] = {
                    "source cleared iff a satisfied filter has drop-host; payload unchanged. COLLISION: two series of one name whose tags may coincide after "
                    "removal are combined without loss (counter sums, timer values and sampled counts, set union, newest timestamp).",
     "bounds": {"quick": "1 filter with all four lists of 0..1 patterns (regex allowed in match-metrics/drop-tags), 1..2 tags, 1 static tag; 2 filters with one pattern each; no filter: 3 tags, 2 static tags",
-               "thorough": "adds 1 filter with lists of 0..2 patterns, 3 filters with one pattern each, 2 filters x 2 tags"},
+               "thorough": "adds 3 filters with one pattern each, 2 filters x 2 tags (1 filter with lists of 0..2 patterns x 2 tags does not finish - more than 900 000 paths in 10 minutes - and is not registered)"},
     "outside": ["regular-expression semantics: regexp.MustCompile/MatchString are an uninterpreted predicate of (pattern, string), congruent on equal strings", "names and tags longer than one byte (prefix matching is therefore exercised with 1-byte prefixes and the empty prefix only)"],
     "assumptions": STUBS_COMMON + [MATH_NOTE],
     "jobs": [
@@ -356,7 +356,7 @@ SPECS["C10"] = {
          "entries": {"quick": ["VerifC10_NoFilter_2_1", "VerifC10_NoFilter_3_2", "VerifC10_Filter1_1_1", "VerifC10_Filter1_2_1", "VerifC10_Filter1Re_1_1", "VerifC10_Filter2_1_0",
                                "VerifC10_CollideCounter", "VerifC10_CollideTimer", "VerifC10_CollideSet", "VerifC10_Twin"],
                      "thorough": ["VerifC10_NoFilter_2_1", "VerifC10_NoFilter_3_2", "VerifC10_Filter1_1_1", "VerifC10_Filter1_2_1", "VerifC10_Filter1Re_1_1", "VerifC10_Filter2_1_0",
-                                  "VerifC10_Filter2_2_1", "VerifC10_Filter3_1_0", "VerifC10_Filter1P2_2_1",
+                                  "VerifC10_Filter2_2_1", "VerifC10_Filter3_1_0",
                                   "VerifC10_CollideCounter", "VerifC10_CollideTimer", "VerifC10_CollideSet", "VerifC10_Twin"]},
          "reach": {"VerifC10_Filter1_1_1": ["dropped", "forwarded", "host-cleared"], "VerifC10_CollideCounter": ["collided", "distinct"], "VerifC10_CollideSet": ["collided"]},
          "twin": {"VerifC10_Twin": True},
